@@ -281,3 +281,76 @@ Proof.
   intros cfg st o HI. cbn [step]. destruct (Pres_unit_ans _ (Pres_op_derive cfg o) st HI) as (I & T).
   split; auto. now apply fresh_of_thaw.
 Qed.
+
+(* ------------------------------------------------------------------ the repaired behaviours (b8214a7, 6df133a) *)
+(* item assignment without id transfer is the dict assignment on that collection and nothing else:
+   neither another object nor any prior id changes *)
+Theorem setitem_effect : forall cfg st o ob key v,
+  itransfers cfg = false -> get st o = Some ob -> okind ob = KColl -> ofrozen ob = false ->
+  let st' := fst (step cfg (OSetItem o key v) st) in
+  comp_at st' o = Some (KColl, set_attr key v (oattrs ob), onitems ob) /\
+  (forall t, t <> o -> comp_at st' t = comp_at st t) /\
+  ptab st' = ptab st /\ inflight st' = inflight st /\
+  snd (step cfg (OSetItem o key v) st) = Ok AUnit.
+Proof.
+  intros cfg st o ob key v Ht G K F. cbn [step]. unfold unit_ans, op_setitem, bind, gets, modify, ret.
+  rewrite G, K, F, Ht. destruct v; rewrite G; simpl; (split; [|split; [|split; [|split]]]); auto;
+    try (unfold comp_at; rewrite (get_put_eq _ _ _ _ G); simpl; now rewrite K);
+    try (intros t Hne; unfold comp_at; rewrite get_put_neq by auto; reflexivity).
+Qed.
+
+Theorem setitem_is_local_now : forall cfg st c ob key v o k,
+  itransfers cfg = false -> get st c = Some ob -> okind ob = KColl -> ofrozen ob = false -> ~ Reach st o c ->
+  pure_key (fst (step cfg (OSetItem c key v) st)) o k = pure_key st o k.
+Proof.
+  intros cfg st c ob key v o k Ht G K F Hn.
+  destruct (setitem_effect cfg st c ob key v Ht G K F) as (_ & Hc & Hp & Hi & _).
+  apply pure_key_local; auto. now apply (agree_if_unreached _ _ o c).
+Qed.
+
+(* prior passing that works on a copy is an ordinary query: it is coherent, i.e. it changes
+   nothing but caches -- composition, prior ids and every frozen flag stay *)
+Lemma Coh_derive : forall cfg, dthaws cfg = false -> forall n idf a o, Coh (derive cfg n idf a o).
+Proof.
+  intros cfg Hd. induction n as [|n IH]; intros idf a o; simpl; [apply Coh_raise|].
+  assert (Hneed : forall p, Coh (if memb (idf p) a then ret tt else raise EKeyError)).
+  { intros p. destruct (memb (idf p) a); [apply Coh_ret|apply Coh_raise]. }
+  apply Coh_bind; [apply Coh_gets; intros; apply view_thaw|].
+  intros [[[cls| |] attrs]|]; [| |apply Coh_ret|apply Coh_raise].
+  - rewrite Hd. apply Coh_bind; [apply Coh_ret|]. intros _.
+    apply Coh_bind; [apply Coh_call_direct|]. intros pc.
+    apply Coh_bind; [apply Coh_as_list|]. intros pl.
+    apply Coh_bind. { apply Coh_mapM. intros it _. apply Hneed. } intros _.
+    apply Coh_bind; [apply Coh_call_direct|]. intros tc.
+    apply Coh_bind; [apply Coh_as_list|]. intros tl.
+    apply Coh_bind.
+    { apply Coh_mapM. intros it _. apply Coh_bind; [apply Coh_gets; intros; apply view_thaw|]. intros [[kk tattrs]|]; [|apply Coh_ret].
+      apply Coh_bind; [|intros; apply Coh_ret].
+      apply Coh_mapM. intros [mk mv] _. simpl. destruct mv; try apply Coh_ret. apply Hneed. }
+    intros _.
+    apply Coh_bind; [apply Coh_call_direct|]. intros fc.
+    apply Coh_bind; [apply Coh_as_list|]. intros _.
+    apply Coh_bind; [apply Coh_call_direct|]. intros mc.
+    apply Coh_bind; [apply Coh_as_list|]. intros ml.
+    apply Coh_bind; [|intros; apply Coh_ret]. apply Coh_mapM. intros it _. apply IH.
+  - apply Coh_bind; [|intros; apply Coh_ret].
+    apply Coh_mapM. intros [k v] _. simpl. destruct v as [p|c|c]; [apply Hneed|apply Coh_ret|].
+    apply Coh_bind; [apply Coh_gets; intros; apply is_pm_thaw|]. intros [|]; [apply IH|apply Coh_ret].
+Qed.
+
+Theorem derive_is_a_query : forall cfg st o, dthaws cfg = false -> Inv st ->
+  let st' := fst (step cfg (ODerive o) st) in
+  Inv st' /\ skel st' = skel st /\ map ofrozen (heap st') = map ofrozen (heap st).
+Proof.
+  intros cfg st o Hd HI. cbn [step].
+  assert (C : Coh (unit_ans (op_derive cfg o))).
+  { unfold unit_ans, op_derive. apply Coh_bind; [|intros; apply Coh_ret].
+    apply Coh_bind; [apply Coh_call_attr|]. intros c. apply Coh_bind; [apply Coh_as_list|]. intros l.
+    apply Coh_bind; [apply Coh_pid|]. intros idf. now apply Coh_derive. }
+  destruct (C st HI) as (I & S & _). split; auto. split; auto.
+  unfold skel in S. injection S as S1 _ _.
+  assert (E : forall l1 l2 : list obj, map skel_obj l1 = map skel_obj l2 -> map ofrozen l1 = map ofrozen l2).
+  { induction l1 as [|a l1 IH]; intros [|b l2] H; simpl in *; try discriminate; auto.
+    injection H as _ _ _ _ Hf Hr. f_equal; auto. }
+  now apply E.
+Qed.
